@@ -748,6 +748,38 @@ func (h *c26History) run(rg *vkit.Rand, nOps int) {
 	h.afterOp(c26Ctx{Inflight: "none", Write: "none", OpNo: 0, Op: "open"}, pre)
 	h.nextIdx = uint32(h.no+1)*4096 + 1
 
+	// long lineage: one history in five first rolls the queue through many segments (appends
+	// of about one segment each, consumed as it goes, no crash images), so that the segment ids
+	// alive in the rest of the history straddle a change in the number of decimal digits
+	// (9/10, sometimes 99/100) and reopening has to put them back into numeric order
+	if rg.Chance(1, 5) {
+		rolls := 6 + rg.Intn(8)
+		if rg.Chance(1, 6) {
+			rolls = 94 + rg.Intn(10)
+		}
+		h.capturing = false
+		for i := 0; i < rolls; i++ {
+			e := c26Payload(h.nextIdx, int(h.cfg.SegSize)-8-rg.Intn(8), vkit.Pick(rg, c26Fills), rg)
+			h.nextIdx++
+			for h.pendingBytes()+int64(len(e))+8 > h.cfg.MaxSize-h.cfg.SegSize && h.adv < len(h.entries) {
+				h.liveHead()
+				if err := h.q.Advance(); err != nil {
+					h.liveFail("advance_error", err.Error(), nil)
+				}
+				h.adv++
+			}
+			if err := h.q.Append(e); err != nil {
+				break
+			}
+			h.entries = append(h.entries, e)
+		}
+		h.caps = nil
+		h.capturing = true
+		h.ops = append(h.ops, fmt.Sprintf("preroll(%d segment-sized appends, %d consumed)", rolls, h.adv))
+		h.r.Event("long_lineage_histories", 1)
+		h.liveHead()
+	}
+
 	for opNo := 1; opNo <= nOps; opNo++ {
 		pre := c26Snapshot(h.dir)
 		ctx := c26Ctx{M: len(h.entries), A: h.adv, OpNo: opNo}
